@@ -20,6 +20,7 @@ import (
 
 	"github.com/kava-labs/kava/app"
 	cdptypes "github.com/kava-labs/kava/x/cdp/types"
+	issuancetypes "github.com/kava-labs/kava/x/issuance/types"
 	pricefeedtypes "github.com/kava-labs/kava/x/pricefeed/types"
 	"kavaverif/drivers/world"
 )
@@ -156,8 +157,38 @@ func scenarioCdpTwoDeposits(seed uint64) *finding {
 	return nil
 }
 
+// scenarioIssuanceSeizeLocked: the asset owner blocks an address whose balance of the
+// issued denom is partly locked by a vesting schedule; the next begin blocker seizes.
+func scenarioIssuanceSeizeLocked(seed uint64) *finding {
+	cfg := world.RandomConfig(NewRng(seed, 2))
+	w := world.NewWorld(cfg, seed, NewCounters())
+	A := w.Start(NewApp())
+	height, t := int64(2), world.Genesis0
+	w.Height, w.Time = height, t
+	vesting := w.Addrs[world.NUsers-1]
+	m := issuancetypes.NewMsgBlockAddress(w.Addrs[1].String(), "busd", vesting.String())
+	ra := world.Deliver(A, height, [][]byte{w.Sign(A, 1, m)})
+	if ra.Panic != "" || ra.Txs[0].Code != 0 {
+		return &finding{height, "scenario-setup-failed", fmt.Sprintf("%+v", ra), nil, cfg}
+	}
+	height++
+	t = t.Add(6 * time.Second)
+	if _, p := world.Begin(A, height, t); p != "" {
+		sig := panicSig(p)
+		if strings.Contains(p, "busd") {
+			sig = "beginblock-panic:issuance-seize-locked-vesting-coins"
+		}
+		return &finding{height, sig, p, []string{"issuance.block busd <periodic vesting account with locked busd> by the asset owner", "next BeginBlock"}, cfg}
+	}
+	if route, msg := checkInvariants(A, height, t); route != "" {
+		return &finding{height, "invariant-broken:" + route, msg, nil, cfg}
+	}
+	return nil
+}
+
 var scenarios = map[string]func(uint64) *finding{
-	"cdp-two-deposits-odd-debt": scenarioCdpTwoDeposits,
+	"issuance-seize-locked-vesting": scenarioIssuanceSeizeLocked,
+	"cdp-two-deposits-odd-debt":     scenarioCdpTwoDeposits,
 }
 
 func mkFailure(idx int, f *finding, h hist) Failure {
@@ -200,7 +231,7 @@ func run(o Opts) (*Result, error) {
 		res.Counters = cnt.Map()
 		return res, nil
 	}
-	for _, name := range SortedKeys(map[string]int{"cdp-two-deposits-odd-debt": 1}) {
+	for _, name := range SortedKeys(map[string]int{"cdp-two-deposits-odd-debt": 1, "issuance-seize-locked-vesting": 1}) {
 		if f := scenarios[name](o.Seed); f != nil {
 			res.Failures = append(res.Failures, mkFailure(-1, f, hist{Seed: o.Seed, Idx: -1, Scenario: name}))
 		}
